@@ -24,6 +24,12 @@ func usage() {
 }
 
 func main() {
+	// the repository needs go >= 1.24: the newer toolchain is put first for go list / go test children
+	os.Setenv("PATH", "/opt/veriftools/go1.26.8/bin:"+os.Getenv("PATH"))
+	for _, kv := range []string{"GOFLAGS=-mod=mod", "GOPROXY=off", "GOSUMDB=off", "GOTOOLCHAIN=local"} {
+		p := strings.SplitN(kv, "=", 2)
+		os.Setenv(p[0], p[1])
+	}
 	if len(os.Args) < 2 {
 		usage()
 	}
